@@ -245,7 +245,7 @@ def run_C02(chk):
     scale = chk.tier if not (chk.broken or chk.degraded) else 'thorough'
     if exe is None or not getattr(chk, 'driver_ok', False):
         return chk.finish()
-    zones = pick_corpus(chk, scale) + Z.seam_zones()
+    zones = pick_corpus(chk, scale) + Z.seam_zones() + Z.rejected_zones()     # rejected files: nothing is asked of them unless a tree loads them
     blocks, meta = civil_blocks(chk, zones, scale, shuffle_too=True)
     mo, io = run_blocks(chk, exe, blocks, 'civil-lookup')
     note_mismatches(chk, blocks, mo, io, 'civil-lookup')
@@ -288,7 +288,7 @@ def run_C03(chk):
     scale = chk.tier if not (chk.broken or chk.degraded) else 'thorough'
     if exe is None or not getattr(chk, 'driver_ok', False):
         return chk.finish()
-    zones = pick_corpus(chk, scale) + Z.seam_zones()
+    zones = pick_corpus(chk, scale) + Z.seam_zones() + Z.rejected_zones()     # rejected files: nothing is asked of them unless a tree loads them
     blocks = []; meta = []
     for i, zn in enumerate(zones):
         ts = [t for t in Z.probe_instants(zn, chk.rng, per_transition=3 if scale == 'quick' else 8, n_random=50 if scale == 'quick' else 300)
@@ -354,7 +354,7 @@ def run_C06(chk):
     scale = chk.tier if not (chk.broken or chk.degraded) else 'thorough'
     if exe is None or not getattr(chk, 'driver_ok', False):
         return chk.finish()
-    zones = pick_corpus(chk, scale) + Z.seam_zones()
+    zones = pick_corpus(chk, scale) + Z.seam_zones() + Z.rejected_zones()     # rejected files: nothing is asked of them unless a tree loads them
     blocks, meta = civil_blocks(chk, zones, scale, op='cv', shuffle_too=True)
     mo, io = run_blocks(chk, exe, blocks, 'convert')
     note_mismatches(chk, blocks, mo, io, 'convert')
@@ -433,6 +433,22 @@ def run_C11(chk):
         for D, c in sub: b.append('subtr %s %d %d' % (zid(i), D, c))
         b += [preds_line(i), 'ntchain %s' % zid(i), 'ptchain %s' % zid(i)]
         blocks.append(b); meta.append((qs, real, sub))
+    # zones without transitions (UTC and fixed offsets: their built-in table only has entries that change nothing, one per
+    # year 2015…2025) always answer false, also right after a lookup that primed the table position
+    fblocks = []
+    for k, off in enumerate((0, 3600, -86400, 45)):
+        fb = ['fixzone fx%d %d' % (k, off)]
+        for yy in range(2014, 2027):
+            tt = C.day_num(yy, 1, 1) * 86400
+            fb += ['bt fx%d %d' % (k, tt + 100), 'nt fx%d %d' % (k, tt + 200), 'pt fx%d %d' % (k, tt + 300), 'nt fx%d %d' % (k, tt - 1), 'pt fx%d %d' % (k, tt + 86400 * 500)]
+        fb += ['nt fx%d %d' % (k, I64MIN), 'pt fx%d %d' % (k, I64MAX), 'ntchain fx%d' % k, 'ptchain fx%d' % k]
+        fblocks.append(fb)
+    fmo, fio = run_blocks(chk, exe, fblocks, 'fixed-transitions')
+    note_mismatches(chk, fblocks, fmo, fio, 'fixed-transitions')
+    for fb, fo in zip(fblocks, fio):
+        for l, o in zip(fb[1:], fo[1:]):
+            if l.split()[0] in ('nt', 'pt') and o != 'none':
+                chk.report('%s: `%s` = `%s` in a zone without any change of offset, flag or abbreviation (expected false)' % (fb[0], l, o), {'ops': [fb[0], l], 'implementation': o}, sig='fixed zone transition')
     mo, io = run_blocks(chk, exe, blocks, 'transitions')
     note_mismatches(chk, blocks, mo, io, 'transitions')
     good = 0
@@ -587,6 +603,38 @@ def run_C10(chk):
                            sig='%ssaturation %s %s' % ('untame ' if untame else '', kind, site_sig(o)))
             else:
                 good += 1; chk.count('saturation:' + kind)
+    # "libc:UTC": the C-library implementation of UTC.  It is not part of the Lean model (runs only, judged by the documented
+    # behaviour): conversions of civil seconds are exact and saturate like UTC's; lookup(t) is exact while gmtime() can represent
+    # the year (int tm_year) and otherwise reports the saturated civil second with abbreviation "-00"; no transitions.
+    ll = ['libczone L']
+    lts = extreme_instants(chk.rng, 40) + [0, -1, 1, 2**31, -2**31 - 1, 67767976233532799, 67767976233532800, -67768040609740800, -67768040609740801,
+                                            67768036191676799, 67768036191676800, 10**12, -10**12]
+    lcs = extreme_civils(chk.rng, 40) + [(2147485547, 12, 31, 23, 59, 59), (2147485548, 1, 1, 0, 0, 0), (-2147481748, 1, 1, 0, 0, 0), (-2147481749, 12, 31, 23, 59, 59),
+                                         (1970, 1, 1, 0, 0, 0), (1969, 12, 31, 23, 59, 59), (3000000000, 6, 1, 12, 0, 0), (-3000000000, 6, 1, 12, 0, 0)]
+    for t in lts: ll += ['bt L %d' % t, 'nt L %d' % t, 'pt L %d' % t]
+    for c in lcs: ll += ['mt L %s' % C.fmt(c), 'cv L %s' % C.fmt(c)]
+    lo = run_lines(exe, ll, timeout=300)
+    if lo[0] != 'ok ' + b'libc:UTC'.hex():
+        chk.report('load_time_zone("libc:UTC") gives `%s`' % lo[0], {'op': ll[0], 'implementation': lo[0]}, sig='libc load')
+    else:
+        for l, o in zip(ll[1:], lo[1:]):
+            p = l.split()
+            if p[0] in ('nt', 'pt'): want = 'none'
+            elif p[0] == 'bt':
+                t = int(p[2]); cs = C.civil_of_sec(t)
+                if -2**31 + 1900 <= cs[0] <= 2**31 - 1 + 1900: want = '%s 0 0 %s' % (C.fmt(cs), b'UTC'.hex())
+                else: want = '%s 0 0 %s' % (C.fmt((I64MIN, 1, 1, 0, 0, 0) if t < 0 else (I64MAX, 12, 31, 23, 59, 59)), b'-00'.hex())
+            else:
+                cs = tuple(int(x) for x in p[2:8])
+                v = clamp(C.sec_num(cs)) if C.in64(cs[0]) else None
+                if v is None: continue
+                want = ('UNIQUE %d %d %d' % (v, v, v)) if p[0] == 'mt' else str(v)
+            chk.cov['evaluations'] += 1
+            if o != want:
+                chk.report('libc:UTC: `%s` = `%s`; the documented behaviour of the C-library UTC zone gives `%s`' % (' '.join(p[:1] + p[2:]), o, want),
+                           {'op': l, 'implementation': o, 'specification': want}, sig='libc:UTC %s %s' % (p[0], site_sig(o)))
+            else:
+                good += 1; chk.count('libc-utc:ok')
     chk.cov['distinct_nontrivial'] = good
     chk.cov['zones'] = len(zones) + len(fixed)
     chk.cov['rule'] = ('every zone of the corpus plus fixed offsets of +-24h, +-(24h-1s), 0, +1h, -1s plus well-formed zones outside the tameness hypothesis: lookup / next_transition / prev_transition at the outermost '
